@@ -56,15 +56,24 @@ def same_crs_pair(rng: random.Random, kind: Optional[str] = None, ttol: float = 
     elif kind == "subpix":
         # residue on either side of the tolerance, never within 10% of it
         inside = rng.random() < 0.5
-        rx = rng.choice([0, 0.2, -0.2, 0.9, -0.9]) * ttol if inside else rng.choice([1.1, 2, 10, -1.1, -3]) * ttol
-        ry = rng.choice([0, 0.2, -0.9, 0.5]) * ttol if (inside or rng.random() < 0.5) else rng.choice([1.1, -2, 5]) * ttol
+        small = lambda: rng.choice([0, 0.2, -0.2, 0.9, -0.9, 0.5]) * ttol
+        large = lambda: rng.choice([1.1, 2, 10, -1.1, -3, 5]) * ttol
+        if inside:
+            rx, ry = small(), small()
+        else:
+            rx, ry = rng.choice([(large(), small()), (small(), large()), (large(), large())])
         P = Affine.translation(tx + rx, ty + ry)
         paste, k_scale = inside, 1
     elif kind == "scale":
         s = rng.choice([2, 3, 4])
         near = rng.choice([0, 0, 0.5 * stol, -0.5 * stol, 2 * stol, -2 * stol])
+        whole = rng.random() < 0.75
+        if whole:
+            tx, ty = s * (tx // s), s * (ty // s)  # whole-pixel shift on the grid of the shrunk source
+        else:
+            tx, ty = s * (tx // s) + rng.randint(1, s - 1), s * (ty // s) + rng.choice([0, 1])
         P = Affine.translation(tx, ty) * Affine.scale(s + near, s + near)
-        paste = abs(near) < stol
+        paste = abs(near) < stol and whole
         k_scale = s if paste else None
     elif kind == "fscale":
         P = Affine.translation(tx + rng.choice([0, 0.5, rng.random()]), ty) * Affine.scale(rng.choice([0.5, 1.5, 2.2, 0.3, 1.005, 2.5]), rng.choice([0.5, 1.5, 2.2, 1, 3]))
@@ -73,7 +82,7 @@ def same_crs_pair(rng: random.Random, kind: Optional[str] = None, ttol: float = 
         P = Affine.translation(tx, ty) * Affine.scale(rng.choice([1, -1]), rng.choice([1, -1]))
         paste, k_scale = True, 1
     elif kind == "rot":
-        P = Affine.translation(tx, ty) * Affine.rotation(rng.choice([5, 30, 90, 180, 0.5, -45])) * Affine.scale(rng.choice([1, 1, 2, 0.7]))
+        P = Affine.translation(tx, ty) * Affine.rotation(rng.choice([5, 30, 90, -90, 0.5, -45, 179])) * Affine.scale(rng.choice([1, 1, 2, 0.7]))
         paste = False
     elif kind == "far":
         P = Affine.translation(rng.choice([-1, 1]) * rng.randint(150, 4000), ty) if rng.random() < 0.5 else Affine.translation(tx, rng.choice([-1, 1]) * rng.randint(150, 4000))
